@@ -17,7 +17,7 @@ import (
 	"github.com/ollama/ollama/zzverif"
 )
 
-var verifVocabPool = []string{"a", "b", "c", "ab", "a b", "b c", "<s>", "</s>", "<start_of_turn>", "<end_of_turn>", "é", "<|x|>", "▁", "a b c", "<start_of_turn", "§"}
+var verifVocabPool = []string{"a", "b", "c", "ab", "a b", "b c", "<s>", "</s>", "<start_of_turn>", "<end_of_turn>", "é", "<|x|>", "▁", "a b c", "<start_of_turn", "§", ""}
 
 // verifVocabRandom: a small Vocabulary with duplicate values, duplicate / ambiguous merge lines ("a b c" is the key
 // of both ("a b","c") and ("a","b c")), turn markers of any type at any position, and sometimes a Types slice
@@ -136,7 +136,7 @@ func verifVocabCase(name string, src *Vocabulary, queries []string, mq [][2]stri
 	out.Case(op.String(), fmt.Sprintf("sp=%s enc=%s mrg=%s dec=%s", sp, j(encs, ","), j(mrgs, ","), j(decs, ";")))
 
 	// ---- L2 on the real code: Values[Encode(s)] == s, ids in range (hypothesis Wf of the theorems); the special list
-	// is exactly the turn markers and the CONTROL-typed values, in Values order
+	// is exactly the non-empty turn markers and CONTROL-typed values, in Values order
 	for _, s := range v.Values {
 		id := v.Encode(s)
 		if id < 0 || int(id) >= len(v.Values) || v.Decode(id) != s {
@@ -147,6 +147,9 @@ func verifVocabCase(name string, src *Vocabulary, queries []string, mq [][2]stri
 	if !panicked && len(v.Types) >= len(v.Values) {
 		var want []string
 		for i, s := range v.Values {
+			if s == "" {
+				continue // an empty token is never special (finding empty-special-hang, fixed in 2f3a10777)
+			}
 			if s == "<start_of_turn>" || s == "<end_of_turn>" || v.Types[i] == TOKEN_TYPE_CONTROL {
 				want = append(want, s)
 			}
